@@ -21,6 +21,10 @@ pub fn check_sequence(o: &mut Out, name: &str, bytes: &[u8], reference: &[(Strin
             ("bytes", jstr(&hex(bytes))), ("results", jstr(&tr.results.join(" | ")))]));
         return tr;
     }
+    for why in &tr.left_frame {
+        o.violation(viol("frame-call-in-mid-frame-left-the-current-frame", vec![("file", jstr(name)), ("ops", jstr(&ops_string(ops).chars().take(400).collect::<String>())), ("transform", tbits.to_string()), ("why", jstr(why)),
+            ("bytes", jstr(&hex(bytes).chars().take(3000).collect::<String>())), ("results", jstr(&tr.results.iter().rev().take(8).rev().cloned().collect::<Vec<_>>().join(" | ")))]));
+    }
     let mut last_idx: i64 = -1;
     for d in &tr.delivered {
         // the frame is identified by its frame-control values; the whole-frame reference decode of that frame is what every path must give
@@ -144,6 +148,45 @@ pub fn run(a: &Args) {
                     let len = rng.range(2, 25) as usize;
                     let ops = random_ops(&mut rng, len);
                     check_sequence(&mut o, &b.name, &b.bytes, &refx, &ops, tbits, 0);
+                }
+            }
+        }
+    }
+    // frames of more than 32 KiB of highly compressible raw data: the inflater releases the last rows only with the end-of-sequence
+    // flush, so the reader is for a while in the state "data sequence finished, rows still buffered"
+    {
+        use crate::pngbuild::*;
+        for (w, h, nframes) in [(16u32, 2100u32, 3u32), (40, 900, 2), (16, 1936, 3), (16, 1930, 2), (31, 1026, 2), (8, 3650, 2)] {
+            let mut chunks = vec![ihdr(w, h, 8, 0, 0), actl_chunk(nframes, 0)];
+            let mut seq = 0u32;
+            for f in 0..nframes {
+                let mut raw = vec![];
+                for r in 0..h { raw.push(if f == 1 { 2 } else { 0 }); raw.extend((0..w).map(|x| ((r / 64) as u8).wrapping_mul(3).wrapping_add(f as u8 * 40).wrapping_add((x / 8) as u8))); }
+                let z = zlib_flate2(&raw, 9);
+                chunks.push(fctl_chunk(seq, w, h, 0, 0, 1, 10, 0, 0)); seq += 1;
+                if f == 0 { chunks.push(Chunk::new(b"IDAT", z)); } else { chunks.push(fdat_chunk(seq, &z)); seq += 1; }
+            }
+            chunks.push(Chunk::new(b"IEND", vec![]));
+            let bytes = assemble(&chunks);
+            let name = format!("tall-compressible-{}x{}x{}", w, h, nframes);
+            let (end, reference) = decode_frames(&bytes, Opts::default(), 0, 0);
+            if reference.len() != nframes as usize {
+                o.violation(viol("reference-decode-incomplete", vec![("file", jstr(&name)), ("end", jstr(&end)), ("frames", reference.len().to_string())]));
+                continue;
+            }
+            o.count("file.tall-compressible-apng");
+            let edge = (32768 / (w as usize + 1)).min(h as usize - 1);   // the first row that needs data beyond the inflater's first 32 KiB
+            let ks: Vec<usize> = vec![0, 1, 64, h as usize / 2, edge - 1, edge, edge + 1, edge + 2, h as usize - 2, h as usize - 1, h as usize];
+            for &k in &ks {
+                for tail in [vec![Op::Frame, Op::Frame, Op::Frame, Op::Frame], vec![Op::FrameInfo, Op::Row, Op::Row, Op::Frame, Op::Frame], vec![Op::ReadRow, Op::Frame, Op::FrameInfo, Op::Frame], vec![Op::IRow, Op::Getters, Op::Frame, Op::Row, Op::Frame]] {
+                  for prefix in [vec![], vec![Op::Frame], vec![Op::FrameInfo]] {
+                    let mut ops: Vec<Op> = prefix.clone();
+                    ops.extend((0..k).map(|i| if i % 3 == 0 { Op::Row } else if i % 3 == 1 { Op::ReadRow } else { Op::IRow }));
+                    ops.extend(tail.clone());
+                    let tr = check_sequence(&mut o, &name, &bytes, &reference, &ops, 0, 0x5A);
+                    if std::env::var("VERIF_DEBUG").is_ok() { eprintln!("{} k={} : {}", name, k, tr.results.iter().rev().take(6).rev().cloned().collect::<Vec<_>>().join(" | ")); }
+                    o.distinct(&format!("{}-{}-{}", name, k, prefix.len()));
+                  }
                 }
             }
         }
